@@ -199,9 +199,18 @@ def main():
                % (len(fsel), 3 if quick else 4), r)
     if r["violated"]:
         rep.mc_violation("DenseOnFMC", r)
+    # signals that begin at different times (0 or 1), every schedule: the output begins with the latest signal and denotes Dense!SigD
+    F2 = [f_ for f_ in FU if len(vars_of(f_)) > 1] + [bi("and", un("once", ax), ay), bi("since", un("hist", ay), ax), bi("since", ax, un("once", ay)),
+                                                      un("once", bi("or", ax, un("hist", ay))), bi("and", un("onceT", ax, 0, 1), ay)]
+    f2sel = [F2[i] for i in sorted(rng.sample(range(len(F2)), 4))] if quick else F2
+    r = densemc.run_formulas("C05_formulas_starts", f2sel, maxt=3, maxn=3, vals=(-2, 3), workers=12, starts=(0, 1))
+    rep.add_mc("DenseOnFMC with signals beginning at 0 or 1: %d two-signal formulas x signal pairs x every per-variable schedule; the returns "
+               "denote Dense!SigD (sub-formulas on their own domains) and begin with the latest signal" % len(f2sel), r)
+    if r["violated"]:
+        rep.mc_violation("DenseOnFMC_starts", r)
     # (B) at formula level: behaviours of DenseOnFMC chosen by TLC's simulator (formula, signals, schedule) replayed on the real monitor;
     # TraceCt validates them like any recorded execution (contract + call-by-call comparison with the model)
-    rs, behs_f = densemc.run_formulas("C05_formulas_sim", FU, maxt=4, maxn=3, vals=(-2, 1, 3), simulate=120 if quick else 1500, workers=8, seed=core.seed())
+    rs, behs_f = densemc.run_formulas("C05_formulas_sim", FU + F2[-5:], maxt=4, maxn=3, vals=(-2, 1, 3), simulate=120 if quick else 1500, workers=8, seed=core.seed(), starts=(0, 0, 1, 2))
     rep.add_mc("TLC simulation of DenseOnFMC: behaviours generated for replay on the real monitor", rs, exhaustive=False)
     if rs["violated"]:
         rep.mc_violation("DenseOnFMC_sim", rs)
